@@ -21,6 +21,9 @@
 (*     with the same text (gen.Big.Simplify documents the string); it may not vanish.       *)
 (*  B3 in-place operations are only required to preserve the value.                         *)
 (*  B4 options are fixed to keep nulls (OmitNil off) and times (TimeFormat "time").         *)
+(*  B5 the projection records whether a container is nil: a non-nil (possibly empty) input  *)
+(*     container must come back non-nil (a nil slice is another Go value and prints as null *)
+(*     in the strict writer); what a nil input container becomes is not stated anywhere.    *)
 EXTENDS Integers, Sequences, FiniteSets, TLC
 
 CONSTANTS MaxNodes,     \* size bound of generated input trees
@@ -60,6 +63,8 @@ RECURSIVE FirstBad(_, _, _)
 FirstBad(op, i, o) ==
    IF IsCont(i) THEN
       IF o.t # i.t \/ Len(o.v) # Len(i.v) \/ (i.t = "obj" /\ o.k # i.k) THEN <<[gi |-> i.g, to |-> o.t]>>
+      \* lossless: a non-nil (empty) container must not come back as a nil one; what a nil container maps to is open (B5)
+      ELSE IF "nil" \in DOMAIN i /\ "nil" \in DOMAIN o /\ ~i.nil /\ o.nil THEN <<[gi |-> i.g, to |-> "nil-container"]>>
       ELSE LET RECURSIVE Scan(_)
                Scan(j) == IF j > Len(i.v) THEN <<>>
                           ELSE LET r == FirstBad(op, i.v[j], o.v[j]) IN IF r # <<>> THEN r ELSE Scan(j + 1)
@@ -70,7 +75,8 @@ FirstBad(op, i, o) ==
 RECURSIVE FirstDiff(_, _)
 FirstDiff(x, y) ==
    IF IsCont(x) THEN
-      IF y.t # x.t \/ y.g # x.g \/ Len(y.v) # Len(x.v) \/ (x.t = "obj" /\ y.k # x.k) THEN <<[gi |-> x.g, to |-> y.t, go |-> y.g]>>
+      IF y.t # x.t \/ y.g # x.g \/ Len(y.v) # Len(x.v) \/ (x.t = "obj" /\ y.k # x.k)
+         \/ ("nil" \in DOMAIN x /\ "nil" \in DOMAIN y /\ x.nil # y.nil) THEN <<[gi |-> x.g, to |-> y.t, go |-> y.g]>>
       ELSE LET RECURSIVE Scan(_)
                Scan(j) == IF j > Len(x.v) THEN <<>>
                           ELSE LET r == FirstDiff(x.v[j], y.v[j]) IN IF r # <<>> THEN r ELSE Scan(j + 1)
@@ -125,10 +131,11 @@ MutKinds(cl) == IF cl.t = "arr" THEN {"append"} \cup (IF Len(cl.v) > 0 THEN {"se
                 ELSE {"setkey"} \cup (IF Len(cl.v) > 0 THEN {"delkey"} ELSE {})
 IsGenCell(cl) == cl.g \in {"gen.Array", "gen.Object"}
 \* keys are kept sorted; "~" sorts after the keys the generator uses, so the new member goes last
+NonNil(cl) == IF "nil" \in DOMAIN cl THEN [cl EXCEPT !.nil = FALSE] ELSE cl      \* a container that received a member is not nil
 MutCell(cl, kind) ==
    CASE kind = "set0"   -> [cl EXCEPT !.v[1] = Marker(IsGenCell(cl))]
-     [] kind = "append" -> [cl EXCEPT !.v = Append(@, Marker(IsGenCell(cl)))]
-     [] kind = "setkey" -> [cl EXCEPT !.k = Append(@, "~"), !.v = Append(@, Marker(IsGenCell(cl)))]
+     [] kind = "append" -> NonNil([cl EXCEPT !.v = Append(@, Marker(IsGenCell(cl)))])
+     [] kind = "setkey" -> NonNil([cl EXCEPT !.k = Append(@, "~"), !.v = Append(@, Marker(IsGenCell(cl)))])
      [] kind = "delkey" -> [cl EXCEPT !.k = Tail(@), !.v = Tail(@)]
 
 \* the same mutation on a tree, at the container found under `path` (sequence of 1-based child positions)
